@@ -128,6 +128,10 @@ def is_static(path: str) -> bool:
     return path.startswith(STATIC_PREFIXES)
 
 
+def fkey(fn):
+    return f"{(getattr(fn, '__module__', '') or '').split('.')[-1]}.{getattr(fn, '__qualname__', repr(fn))}"
+
+
 def join(path, attr):
     return attr if path == "" else f"{path}.{attr}"
 
@@ -146,6 +150,7 @@ class Analyser:
         self.unknown: list[str] = []
         self.inlined: set = set()
         self.assumed_pure: set = set()
+        self.skipped: dict = {}     # package callees not inlined because nothing reachable from self was passed
 
     # ---------------------------------------------------------------- emission
     def emit(self, st):
@@ -296,6 +301,8 @@ class Analyser:
             fn = inspect.unwrap(fn)
         node = self.source_ast(fn)
         key = getattr(fn, "__qualname__", repr(fn))
+        if node is None and key.endswith(".__init__") and self._is_dataclass_init(fn):
+            return pure_of(*posargs, *kwargs.values())
         if node is None or len(self.stack) >= self.MAX_DEPTH or self.stack.count(key) >= 3:
             tainted = [a for a in list(posargs) + list(kwargs.values()) if a.tainted()]
             res = pure_of(*posargs, *kwargs.values())
@@ -347,6 +354,13 @@ class Analyser:
         finally:
             self.stack.pop()
 
+    @staticmethod
+    def _is_dataclass_init(fn):
+        import dataclasses
+        mod = sys.modules.get(getattr(fn, "__module__", ""), None)
+        owner = getattr(mod, getattr(fn, "__qualname__", "").split(".")[0], None) if mod else None
+        return owner is not None and dataclasses.is_dataclass(owner)
+
     def call_value(self, f: V, posargs, kwargs, node=None) -> V:
         src = ast.unparse(node)[:70] if node is not None else "<call>"
         allargs = list(posargs) + list(kwargs.values())
@@ -366,6 +380,12 @@ class Analyser:
             fresh = V(classes={cls}, reads=frozenset().union(*[a.reads for a in allargs]) if allargs else (),
                       arg=any(a.arg for a in allargs))
             if not any(a.tainted() for a in allargs):
+                try:
+                    i0 = inspect.getattr_static(cls, "__init__")
+                    if inspect.isfunction(i0):
+                        self.skipped[fkey(i0)] = (i0, cls)
+                except AttributeError:
+                    pass
                 return fresh       # untainted constructor arguments: a fresh object of pure data
             try:
                 init = inspect.getattr_static(cls, "__init__")
@@ -387,6 +407,7 @@ class Analyser:
             mod = getattr(fn, "__module__", "") or ""
             if mod.split(".")[0] == PKG:
                 if not any(a.tainted() for a in allargs):
+                    self.skipped[fkey(fn)] = (fn, None)
                     return self.special_returns(fn, pure_of(*allargs))
                 return self.inline(fn, posargs, kwargs)
             if any(a.tainted() for a in allargs):
@@ -421,6 +442,8 @@ class Analyser:
         if impls:
             interesting = recv.tainted() or any(a.tainted() for a in allargs)
             if not interesting:
+                for c, fn, is_static in impls:
+                    self.skipped[fkey(fn)] = (fn, None if is_static else c)
                 return pure_of(recv, *allargs)
             out = None
             multi = len(impls) > 1
@@ -1087,6 +1110,38 @@ def analyse_constructor(cls, samples, dialect_classes):
             "inlined": sorted(an.inlined), "assumed_pure": sorted(an.assumed_pure)}
 
 
+# callees whose class-level state is a cache of immutable singletons keyed by the dialect itself
+ALLOWED_STATE = {"dialects.SplinkDialect.__new__": "instance cache of the immutable dialect singletons, keyed by the dialect class"}
+
+
+def analyse_callee(fn, owner, dialect_classes):
+    """a package callee that the creators' analysis did not inline (no value reachable from the creator was
+    passed): abstractly executed with opaque arguments; only its writes to module / class / default state
+    matter (its own locals and arguments are not the creator's).  Returns (program, skipped callees)."""
+    import dataclasses
+    an = Analyser({}, dialect_classes, {})
+    node = an.source_ast(inspect.unwrap(fn))
+    if node is None:
+        if owner is not None and dataclasses.is_dataclass(owner) and getattr(fn, "__name__", "") == "__init__":
+            return [], {}      # generated dataclass constructor: stores its arguments
+        return [("mut", f"<unknown callee without source {getattr(fn, '__qualname__', fn)}>", [], False)], {}
+    a = node.args
+    params = [p.arg for p in a.posonlyargs + a.args]
+    args = []
+    for i, pn in enumerate(params):
+        if i == 0 and owner is not None and pn in ("self", "cls"):
+            args.append(V(classes={owner}) if pn == "self" else V(is_class=owner))
+        else:
+            args.append(V(arg=True, classes=set(dialect_classes) if "dialect" in pn and "str" not in pn and "name" not in pn else None))
+    kw = {p.arg: V(arg=True) for p in a.kwonlyargs}
+    _AN[0] = an
+    try:
+        an.inline(fn, args, kw)
+    finally:
+        _AN[0] = None
+    return an.blocks[0], an.skipped
+
+
 def analyse(cls, entry: str, samples, dialect_classes):
     """program of cls.entry(dialect); returns dict(program, out_reads, out_arg, unknown, inlined)"""
     rawtypes: dict = {}
@@ -1107,7 +1162,7 @@ def analyse(cls, entry: str, samples, dialect_classes):
         _AN[0] = None
     prog = an.blocks[0]
     return {"program": prog, "out_reads": [], "out_arg": ret.arg, "unknown": an.unknown,
-            "inlined": sorted(an.inlined), "assumed_pure": sorted(an.assumed_pure)}
+            "inlined": sorted(an.inlined), "assumed_pure": sorted(an.assumed_pure), "skipped": dict(an.skipped)}
 
 
 # ------------------------------------------------------------------------- read closure and Coq emission
